@@ -192,14 +192,18 @@ def main(tier, seed):
     n6, s6 = parser_part(rep, dev, tier, rng, skel, "statement skeletons")
     n7, s7 = parsertwin.check(rep, dev, skel, "statement skeletons", tag="c03twinC")
     rep.coverage["skeleton_sources"] = len(skel)
+    # the context rules under every chain of up to three enclosing constructs
+    ctx = parsertwin.context_sources(3)
+    n9, s9 = parsertwin.check(rep, dev, ctx, "context rules under every chain of enclosing constructs", tag="c03ctx")
+    rep.coverage["context_rule_sources"] = n9
     # nesting within stated bounds (blocks and conditionals also around 256 open scopes)
     deep = ["(" * d + "1" + ")" * d + ";" for d in (1, 10, 64)] + ["{" * d + "}" * d for d in (1, 10, 64, 255, 256, 257, 300)] + \
            ["fn f(c) { " + "if c { " * d + "print(c);" + " }" * d + " }\nf(true);" for d in (64, 255, 256, 257)] + \
            ["var s = " + ("\"a${" * d) + "1" + ("}\"" * d) + ";" for d in (7, 8, 9, 12)] + ["[" * d + "]" * d + ";" for d in (10, 64)]
     n3, s3 = parser_part(rep, dev, tier, rng, deep, "nesting")
-    rep.coverage["states"] = states + s1 + s2 + s3 + s4 + s5 + s6 + s7 + s8
+    rep.coverage["states"] = states + s1 + s2 + s3 + s4 + s5 + s6 + s7 + s8 + s9
     rep.coverage["transitions"] = states + s1 + s2 + s3 + s4 + s5 + s6 + s7 + s8
-    rep.coverage["traces_validated_against_impl"] = nscan + n1 + n2 + n3 + n4 + n5 + n6 + n7 + n8
+    rep.coverage["traces_validated_against_impl"] = nscan + n1 + n2 + n3 + n4 + n5 + n6 + n7 + n8 + n9
     rep.coverage["scanner_sources"] = nscan
     rep.coverage["parser_inputs"] = n1 + n2 + n3
     rep.coverage["exhaustive"] = True
